@@ -1,11 +1,15 @@
 pub mod aml_engine;
+pub mod model_engine;
+pub mod options_engine;
+pub mod refusal_engine;
+pub mod scalar_engine;
 pub mod tables_engine;
 
 use crate::json::J;
 use crate::report::{Cfg, Report};
 
 /// Run the engines that decide `cfg.prop`.
-pub fn dispatch(cfg: &Cfg, _child: bool) -> (Report, Vec<(&'static str, J)>) {
+pub fn dispatch(cfg: &Cfg, child: bool) -> (Report, Vec<(&'static str, J)>) {
     let mut extra = Vec::new();
     // oracle self-test against crate-independent vectors: a wrong oracle is inconclusive
     match crate::amlref::vectors::selftest() {
@@ -25,11 +29,92 @@ pub fn dispatch(cfg: &Cfg, _child: bool) -> (Report, Vec<(&'static str, J)>) {
         }
         "C06" => aml_engine::run_c06(cfg),
         "C15" => aml_engine::run_c15(cfg),
+        "C11" => options_engine::run(cfg),
+        "C12" => model_engine::run_c12(cfg),
+        "C13" => model_engine::run_c13(cfg),
+        "C17" => model_engine::run_c17(cfg),
+        "C18" => {
+            let mut r = refusal_engine::run_sites(cfg);
+            if child && refusal_engine::tier_huge(cfg) {
+                r.merge(refusal_engine::run_huge(cfg));
+            }
+            r
+        }
+        "C07" => scalar_engine::run_c07(cfg),
+        "C08" => scalar_engine::run_c08(cfg),
+        "C09" => scalar_engine::run_c09(cfg),
+        "C10" => scalar_engine::run_c10(cfg),
+        "C16" => scalar_engine::run_c16(cfg),
         p => {
             let mut r = Report::default();
             r.inconclusive(format!("no engine for property {}", p));
             r
         }
     };
+    let mut rep = rep;
+    if !child && cfg.replay.is_none() {
+        if let Ok(bin) = std::env::var("VERIF_CHECKED_BIN") {
+            // C18 runs everything again under the overflow-checked profile; the thorough tier of the
+            // other properties repeats a reduced workload there (an in-domain arithmetic overflow
+            // would be a panic only in that profile).
+            let scale = if cfg.prop == "C18" { 100 } else { 12 };
+            run_child(cfg, &bin, scale, &mut rep, &mut extra);
+        }
+    }
     (rep, extra)
+}
+
+fn run_child(cfg: &Cfg, bin: &str, scale: u64, rep: &mut Report, extra: &mut Vec<(&'static str, J)>) {
+    let out = std::process::Command::new(bin)
+        .arg(&cfg.prop)
+        .arg("--child")
+        .arg("--tier")
+        .arg(cfg.tier.name())
+        .arg("--seed")
+        .arg(cfg.seed.to_string())
+        .arg("--scale")
+        .arg(scale.to_string())
+        .output();
+    match out {
+        Err(e) => rep.inconclusive(format!("cannot run the checked-profile binary {}: {}", bin, e)),
+        Ok(o) => {
+            let text = String::from_utf8_lossy(&o.stdout).to_string();
+            let mut child_ev = None;
+            for l in text.lines() {
+                if let Some(j) = l.strip_prefix("CHILD-EVIDENCE ") {
+                    child_ev = crate::json::parse(j).ok();
+                } else if l.starts_with("VIOLATION") || l.starts_with("KNOWN-FINDING") || l.starts_with("  ") {
+                    println!("{}", l);
+                }
+            }
+            match o.status.code() {
+                Some(0) => {}
+                Some(1) => {
+                    let n = child_ev.as_ref().and_then(|e| e.get("violations")).and_then(|v| v.as_i128()).unwrap_or(1).max(1);
+                    rep.violation_count += n as u64;
+                    rep.cov_n("violations_reported_by_checked_profile_child", n as u64);
+                }
+                Some(2) => rep.inconclusive("checked-profile child run was inconclusive".to_string()),
+                c => rep.inconclusive(format!("checked-profile child ended abnormally (status {:?}); not a verdict", c)),
+            }
+            if let Some(ev) = child_ev {
+                if let Some(cov) = ev.get("coverage") {
+                    let pick = |k: &str| cov.get(k).cloned().unwrap_or(J::Null);
+                    extra.push((
+                        "checked_profile",
+                        crate::json::obj(vec![
+                            ("evaluations", pick("evaluations")),
+                            ("observation_points", pick("observation_points")),
+                            ("distinct_nontrivial", pick("distinct_nontrivial")),
+                            ("observed", pick("observed")),
+                            ("violations", ev.get("violations").cloned().unwrap_or(J::Null)),
+                            ("scale_pct", J::Int(scale as i128)),
+                        ]),
+                    ));
+                }
+            } else {
+                rep.inconclusive("checked-profile child produced no evidence".to_string());
+            }
+        }
+    }
 }
